@@ -1,7 +1,9 @@
 (* C15 — only genuine, fresh acknowledgements change sender state. Statements only; proofs in AckProofs.v.
    State = the whole frame queue (frame log, ack flags, reorder buffer, loss intervals, pending feedback,
-   transfer window) and the packet sender (fragment ack flags). *)
-From UF Require Import Consts Base Frame F64 Feedback Sender FrameQueue AckProofs.
+   transfer window) and the packet sender (fragment ack flags). AckFresh.v: what an accepted group adds to the pending
+   feedback (the send time the round-trip sample is taken from, the acknowledged bytes) comes from exactly the frames it
+   acknowledges for the first time — frames it names again contribute nothing. *)
+From UF Require Import Consts Base Frame F64 Feedback Sender FrameQueue AckProofs FrameQueueProofs AckFresh.
 
 Theorem C15_unknown_frame_identity :
   forall q s ack rtt,
@@ -44,6 +46,33 @@ Example C15_example :
        match fq_acknowledge_group q0 s0 (mkAg 100 1 false) None with Ok (q2, _) => match fq_ack_data q2 with None => true | _ => false end | _ => false end)
   | _ => (false, false, false)
   end = (true, true, true).
+Proof. vm_compute. reflexivity. Qed.
+
+(* an accepted group adds the latest send time and the total size of exactly the frames it acknowledges for the first time *)
+Theorem C15_feedback_from_fresh_frames :
+  forall q s ack rtt q' s',
+  FqInv q -> ag_base ack < pow32 -> ag_bits ack < pow32 ->
+  fq_acknowledge_group q s ack rtt = Ok (q', s') ->
+  let fr := fresh_list q (ag_base ack) (ag_bits ack) 0 (N.to_nat (bitfield_size (ag_bits ack))) in
+  fq_ack_data q' = fq_ack_data q \/
+  (fr <> [] /\ exists rl, fq_ack_data q' = Some (merge_ack_data (fq_ack_data q) (mkAckData (max_time fr) (sum_size fr) rl))).
+Proof. exact ack_group_feedback. Qed.
+Print Assumptions C15_feedback_from_fresh_frames.
+
+(* non-vacuity: frames 100 (sent at 5, 30 bytes) and 101 (sent at 90, 40 bytes); 101 is acknowledged and its feedback
+   consumed; a later group naming both contributes frame 100 only: send time 5, 30 bytes *)
+Example C15_fresh_example :
+  let q0 := fq_push (fq_push (fq_new 16 16 100) 30 5 [] true) 40 90 [] false in
+  let s0 := sender_new 4 0 1000 in
+  match fq_acknowledge_group q0 s0 (mkAg 101 1 false) None with
+  | Ok (q1, s1) =>
+      match fq_acknowledge_group (fst (fq_get_feedback q1 200)) s1 (mkAg 100 3 true) None with
+      | Ok (q2, _) => match fq_ack_data q1, fq_ack_data q2 with
+                      | Some a, Some b => (ad_last_send a, ad_total a, ad_last_send b, ad_total b) = (90, 40, 5, 30)
+                      | _, _ => False end
+      | _ => False end
+  | _ => False
+  end.
 Proof. vm_compute. reflexivity. Qed.
 
 Check C15_replay_identity : forall q s ack rtt,
